@@ -1668,6 +1668,9 @@ func (e *SpecEnv) builtinSpec(name string, c *ast.CallExpr) (Val, bool) {
 				*x.probe = append(*x.probe, SeqRef{now.Arr, now.Off})
 			}
 			eq := x.valEq(a, b)
+			if a.K == KSlice && b.K == KSlice {
+				eq = sAnd(sEq(a.Arr, b.Arr), sEq(a.Off, b.Off), sEq(a.Len, b.Len))
+			}
 			if eq == "" {
 				sfail("unchanged(): elements are not comparable")
 			}
